@@ -42,7 +42,8 @@ NCP = 0x110000
 MODULE_NAMES = {"Any", "List", "Union", "Maybe", "Property", "Object", "AllOf", "AnyOf", "Array", "Boolean",
                 "Element", "Integer", "Not", "Nothing", "Null", "Number", "OneOf", "String"}
 CONTEXTS = [("{c}", "c"), ("a{c}", "a+c"), ("{c}a", "c+a"), ("a{c}b", "a+c+b"), ("_{c}_", "_+c+_")]
-TITLE_CONTEXTS = [("{c}", "c"), ("A{c}", "A+c"), ("{c}A", "c+A")]
+# "A_<c>" / "A_1<c>": the position of the de-duplication suffix, which the title formatter treats specially
+TITLE_CONTEXTS = [("{c}", "c"), ("A{c}", "A+c"), ("{c}A", "c+A"), ("A_{c}", "A_+c"), ("A_1{c}", "A_1+c"), ("A_{c}_2", "A_+c+_2")]
 
 
 def name_problems(name, image):
@@ -241,7 +242,8 @@ def gen_cases(draw):
     if draw(st.integers(0, 3)) == 0:
         # titles that collide with the names de-duplication hands out (Foo, Foo -> Foo_1; explicit "Foo_1")
         base = draw(st.sampled_from(["Foo", "foo", "my title", "a1b"]))
-        fam = [base, base, base + "_1", base + " 1", base.upper(), base + "_2", base + "_1_1"]
+        fam = [base, base, base + "_1", base + " 1", base.upper(), base + "_2", base + "_1_1", base + "_\uff11",
+               base + "_\u0663", base + "_1\u00b2", base + "_\uff11_1"]
         return {"kind": kind, "titles": draw(st.lists(st.sampled_from(fam), min_size=2, max_size=4))}
     if draw(st.integers(0, 4)) == 0:
         # two same-titled objects whose only difference is a pair of JSON names that look alike to
